@@ -22,6 +22,10 @@ MUTANTS = [
 	('c13-swallow-failure', 'C13', 'src/gambit/sigs/calc.py',
 	 "sigs[i] = future.result()",
 	 ["try:", "\tsigs[i] = future.result()", "except OSError:", "\tsigs[i] = np.empty(0, kspec.index_dtype)"]),
+	('c13-shared-accumulator-between-threads', 'C13', 'src/gambit/sigs/calc.py',
+	 "with seqfile.parse() as records:", ["if accumulator is None:", "\taccumulator = _ACCUMULATORS.setdefault(kspec.k, default_accumulator(kspec.k))", "\taccumulator.clear()", "with seqfile.parse() as records:"]),
+	('c13-shared-accumulator-between-threads', 'C13', 'src/gambit/sigs/calc.py',
+	 "def default_accumulator(k: int) -> KmerAccumulator:", ["_ACCUMULATORS = dict()", "", "", "def default_accumulator(k: int) -> KmerAccumulator:"]),
 	('c05-chunk-out-slice', 'C05', 'src/gambit/metric.py',
 	 "jaccarddist_array(query, ref_chunk, out=out[i, ref_slice])", ["jaccarddist_array(query, ref_chunk, out=out[i, :len(ref_chunk)])"]),
 	('c05-mirror-wrong-triangle', 'C05', 'src/gambit/metric.py',
